@@ -946,7 +946,7 @@ pub fn accepted_workload(r: &mut Rng, fam: Fam, n: usize, f: &mut dyn FnMut(&[u8
 
 pub fn c11(ctx: &mut Ctx, layer: &str) {
     let n_in: usize = match layer {
-        "miri" => if ctx.thorough { 5_000 } else { 300 },
+        "miri" => if ctx.thorough { 2_400 } else { 300 },
         "vg" => 10_000,
         "asan" => 3_000_000,
         _ => {
